@@ -91,12 +91,9 @@ class Envelope(object):
         return BytesParser(policy=SMTP).parse(BytesIO(data), *extra)
 
     def _msg_generator(self, msg):
-        try:
-            return self._generate(msg, SMTP)
-        except Exception:
-            # The standard library can fail while re-folding over-long or
-            # malformed header lines; emit those headers as they were received.
-            return self._generate(msg, _NO_REFOLD)
+        # Header lines are emitted as they were received: re-folding them
+        # changes (and for 8-bit values re-encodes) what the sender wrote.
+        return self._generate(msg, _NO_REFOLD)
 
     def _generate(self, msg, policy):
         outfp = BytesIO()
@@ -126,6 +123,9 @@ class Envelope(object):
         :param value: The header value string.
 
         """
+        # Flattening leaves header lines as they are, so fold the new one here.
+        folded = SMTP.fold(name, value)
+        value = folded[len(name)+2:].rstrip('\r\n')
         self.headers._headers.insert(0, (name, value))  # type: ignore
 
     def copy(self, new_rcpts=None):
